@@ -23,8 +23,8 @@ REWARD_SLICE = [r'reward\..*', r'tok\..*', r'hub\.ugi', r'inst\.reward']
 
 PROPS = {
     'C12': {
-        'families': [pure('deleg', 10000, thorough_scale={'count': 80000}), pure('undeleg', 10000, thorough_scale={'count': 80000})],
-        'slice': [r'f\.deleg', r'f\.undeleg'],
+        'families': [pure('deleg', 10000, thorough_scale={'count': 80000}), pure('undeleg', 10000, thorough_scale={'count': 80000}), gen('registry', 30, 120)],
+        'slice': [r'f\.deleg', r'f\.undeleg', r'hub\.bond', r'hub\.bondst', r'reg\.add', r'reg\.remove'],
         'explanation': 'calculate_delegations / calculate_undelegations called directly (public items) on seeded lists '
                        '(length 0..64, sorted/unsorted, ties, zeros, amounts up to the u128 range) and compared with the Lean '
                        'functions the theorems are about; the C12 clauses are also re-checked on every implementation output',
@@ -43,7 +43,7 @@ PROPS = {
                        'the same statements are re-evaluated on every implementation step from Holder/State/AccruedRewards queries',
     },
     'C18': {
-        'corpus': ['D4.ops', 'crowd-migrate.ops', 'alt-spelling-genesis.ops', 'hub-as-allowance-owner.ops'],
+        'corpus': ['D4.ops', 'crowd-migrate.ops', 'alt-spelling-genesis.ops', 'hub-as-allowance-owner.ops', 'burn-while-paused.ops'],
         'families': [gen('token', 30, 120), gen('tokeninit', 30, 100), gen('mixed', 15, 120), gen('crowd', 8, 160)],
         'slice': [r'tok\..*', r'inst\.bsei', r'inst\.stsei', r'hub\.bond', r'hub\.bondst'],
         'explanation': 'ledger invariant (sum of balances = supply) proved for every instantiate message and every message sequence of both token flavours; '
@@ -72,7 +72,7 @@ PROPS = {
         'explanation': 'exact recognition and two-sided pro-rata bounds proved (nlinarith over the order of floors in query_actual_state and calculate_new_withdraw_rate); every CheckSlashing on the implementation is compared with the exact shares',
     },
     'C17': {
-        'corpus': ['D3.ops', 'large-reward-odd-price.ops'],
+        'corpus': ['D3.ops', 'large-reward-odd-price.ops', 'dispatcher-config-resend-and-bounds.ops'],
         'families': [pure('swapinfo', 10000, thorough_scale={'count': 80000}), gen('rewards', 30, 120), gen('admin', 10, 100)],
         'slice': [r'f\.swapinfo', r'hub\.ugi', r'disp\..*', r'inst\.disp'],
         'explanation': 'swap decision and dispatch split proved for all balances/prices/rates; get_swap_info driven through the real SwapToRewardDenom with fixed balances over the whole price range [1e-18,1e18]; whole index updates on the minichain',
@@ -87,7 +87,7 @@ PROPS = {
                        'judged against the principal table read from the implementation\'s own queries; plus admin/mixed histories',
     },
     'C11': {
-        'corpus': ['legacy-zero-amount-first.ops'],
+        'corpus': ['legacy-zero-amount-first.ops', 'burn-while-paused.ops'],
         'families': [matrix('c11'), gen('admin', 20, 100)],
         'slice': [r'hub\..*', r'env\.legacy'],
         'exhaustive': True,
@@ -96,6 +96,7 @@ PROPS = {
                        '12 random histories re-run with a pause/blocked-call/unpause cycle inserted at a random position and compared with the uninterrupted run',
     },
     'C20': {
+        'corpus': ['dispatcher-config-resend-and-bounds.ops'],
         'families': [gen('deploy', 25, 60), matrix('c20'), gen('admin', 20, 100)],
         'slice': [r'hub\.uparams', r'hub\.uconfig', r'disp\.u.*', r'reward\.u.*', r'reg\.uconfig', r'inst\..*'],
         'exhaustive': True,
@@ -161,13 +162,14 @@ FIELDS = {
     'C02': ['hub.raw', 'hub.q'],
     'C03': ['hub.q', 'hub.raw', 'batch'],
     'C04': ['hub.q', 'hub.raw', 'batch'],
-    'C05': ['hub.q', 'hub.raw'],
+    'C05': ['hub.q', 'hub.raw', 'params'],
     'C06': ['hub.q', 'hub.raw', 'hist'],
     'C07': ['users', 'batch', 'hist'],
     'C08': ['hist', 'batch'],
     'C09': ['hub.raw', 'hub.q', 'batch', 'hist', 'users', 'bsei', 'stsei'],
     'C10': ['cfg', 'params', 'disp', 'reg'],
     'C11': ['params', 'legacy'],
+    'C12': ['reg'],
     'C13': ['reg'],
     'C14': ['rw'],
     'C15': ['rw'],
